@@ -8,12 +8,12 @@ d = os.path.join(os.path.dirname(os.path.dirname(os.path.abspath(__file__))), "s
 log = open(os.path.join(d, "confirm.log")).read()
 res = re.findall(r"^RESULT .*$", log, re.M)
 meta = {
- "property": prop, "round": 2 if name.endswith("-r2") else 1,
+ "property": prop, "round": 3 if name.endswith("-r3") else (2 if name.endswith("-r2") else 1),
  "breaks": breaks, "needs_to_manifest": needs, "change": change,
  "confirmed": {"how": "lib/seed_confirm.sh in a scratch worktree of /repo HEAD: patch applies and builds; the demonstration passes without the change and fails with it; the existing tests of the touched packages pass with it",
                "result": res[-1] if res else "?", "log": "confirm.log"},
  "checks_run": checks, "detected_by": detected,
- "source": "fresh sub-agent given only the property record, the one-line description of the round-1 change to avoid, and a scratch worktree",
+ "source": "fresh sub-agent given only the property record, one-line descriptions of the earlier seeded changes to avoid (and, in round 3, a preferred kind of trigger), and a scratch worktree",
 }
 if note: meta["note"] = note
 json.dump(meta, open(os.path.join(d, "meta.json"), "w"), indent=1)
